@@ -237,6 +237,9 @@ func genOps(prop string, r *Rng, n int, tier string, emit func(string)) {
 			switch r.Intn(9) {
 			case 8: // CompoundPacket is a packet type too: its own Marshal/Unmarshal pair
 				emit("crt " + packetsTokens(genCompoundSeq(r)))
+				if prop == "C02" {
+					emit(genReuseOp(r))
+				}
 				if r.Chance(1, 3) {
 					q := genValue(r, "REMB", false).(*rtcp.ReceiverEstimatedMaximumBitrate)
 					emit(fmt.Sprintf("rembto %s %d", bodyTokens(q), q.MarshalSize()+r.Pick(0, 0, 4)))
@@ -509,6 +512,16 @@ func genOps(prop string, r *Rng, n int, tier string, emit func(string)) {
 				emit("udec " + hx(b))
 			}
 		}
+		for _, k := range []int{1, 253, 254, 65533, 65534, 65535} { // whatever Marshal accepts must come back as the same type
+			v := &rtcp.TransportLayerNack{SenderSSRC: 1, MediaSSRC: 2}
+			for j := 0; j < k; j++ {
+				v.Nacks = append(v.Nacks, rtcp.NackPair{PacketID: uint16(j)})
+			}
+			emit("rt 1 " + packetTokens(v))
+		}
+		for i := 0; i < n/60; i++ {
+			emit("relay " + hx(genRelayDatagram(r)))
+		}
 		for _, pf := range registeredPairs { // 4-octet frames of every registered pair to every decoder
 			f := hdrBytes(false, pf[1], pf[0], 0)
 			for _, t := range decKinds {
@@ -572,10 +585,13 @@ func genOps(prop string, r *Rng, n int, tier string, emit func(string)) {
 	case "C10":
 		for i := 0; i < n; i++ {
 			k := allKinds[r.Intn(len(allKinds))]
-			p := genValue(r, k, false)
+			p := dirtyXRHeaders(r, genValue(r, k, false))
 			emit(opWith("dst", p))
 			if r.Chance(1, 3) {
 				emit("rtdst 1 " + packetTokens(p))
+			}
+			if r.Chance(1, 8) { // the list handed out for one packet must survive decoding another into the same value
+				emit("dst2." + k + " " + hx(validFrame(r, k)) + " " + hx(validFrame(r, k)))
 			}
 			if r.Chance(1, 6) {
 				emit("cdst " + packetsTokens(genCompoundSeq(r)))
@@ -610,6 +626,14 @@ func genOps(prop string, r *Rng, n int, tier string, emit func(string)) {
 				}
 			case 4:
 				emit("csize " + tk)
+				if r.Chance(1, 4) { // members whose size is not a multiple of 4 (only a caller-built RawPacket can be)
+					raw := rtcp.RawPacket(r.Bytes(r.Pick(5, 6, 7, 9)))
+					qs := append(append([]rtcp.Packet{}, ps...), &raw)
+					if r.Bool() {
+						qs = append([]rtcp.Packet{&raw}, qs...)
+					}
+					emit("csize " + packetsTokens(qs))
+				}
 			case 5:
 				emit("cdst " + tk)
 			}
@@ -628,6 +652,28 @@ func genOps(prop string, r *Rng, n int, tier string, emit func(string)) {
 					if b2, err := rtcp.Marshal(genCompoundSeq(r)); err == nil {
 						emit("reuse.COMPOUND " + hx(b) + " " + hx(b2))
 					}
+				}
+			}
+		}
+		{ // compounds with a member of 64 KiB and more; a first frame whose length field claims 64 KiB and more
+			big := &rtcp.SourceDescription{}
+			for i := 0; i < 31; i++ {
+				c := rtcp.SourceDescriptionChunk{Source: uint32(r.Bits(32, 32))}
+				for j := 0; j < 10; j++ {
+					c.Items = append(c.Items, rtcp.SourceDescriptionItem{Type: rtcp.SDESNote, Text: string(r.Bytes(250))})
+				}
+				big.Chunks = append(big.Chunks, c)
+			}
+			ps := []rtcp.Packet{genValue(r, "RR", false), rtcp.NewCNAMESourceDescription(uint32(r.Bits(32, 32)), "c"), big}
+			emit("crt " + packetsTokens(ps))
+			if b, err := rtcp.Marshal(ps); err == nil {
+				emit("cdec " + hx(b))
+			}
+			for _, l := range []int{0x3fff, 0x4000, 0x4001, 0x8001, 0xffff} {
+				rr := []byte{0x80, 201, byte(l >> 8), byte(l), 0, 0, 0, 1}
+				if sd, err := rtcp.NewCNAMESourceDescription(2, "c").Marshal(); err == nil {
+					emit("cdec " + hx(append(rr, sd...)))
+					emit("udec " + hx(append(rr, sd...)))
 				}
 			}
 		}
@@ -725,6 +771,19 @@ func genOps(prop string, r *Rng, n int, tier string, emit func(string)) {
 				p := genValue(r, "REMB", false)
 				emit("rt 1 " + packetTokens(p))
 			}
+			if r.Chance(1, 15) { // the length field and the count octet disagree
+				b := rembWire(r, r.Intn(64), 1+r.Intn(0x3FFFF), 1+r.Intn(3))
+				extra := r.Pick(1, 1, 2)
+				if r.Chance(1, 4) && len(b) > 24 {
+					b = b[:len(b)-4]
+					extra = 0
+				}
+				for ; extra > 0; extra-- {
+					b = binary.BigEndian.AppendUint32(b, uint32(r.U64()))
+				}
+				binary.BigEndian.PutUint16(b[2:], uint16(len(b)/4-1))
+				emit("dec.REMB " + hx(b))
+			}
 			if r.Chance(1, 15) {
 				emit("reuse.REMB " + hx(rembWire(r, r.Intn(64), 1+r.Intn(0x3FFFF), 1+r.Intn(3))) + " " + hx(rembWire(r, r.Intn(64), 1+r.Intn(0x3FFFF), r.Pick(0, 0, 1))))
 			}
@@ -803,6 +862,11 @@ func genOps(prop string, r *Rng, n int, tier string, emit func(string)) {
 				w := &W{}
 				putTwccChunk(w, genTwccChunk(r, r.Chance(1, 4)))
 				emit("enc.TCHUNK " + w.String())
+				if r.Chance(1, 6) { // vectors with every symbol set (the last one is the interesting one)
+					emit("enc.TCHUNK 1 1 0 14 1 1 1 1 1 1 1 1 1 1 1 1 1 1")
+					emit("enc.TCHUNK 1 1 1 7 3 3 3 3 3 3 3")
+					emit("enc.TCHUNK 1 1 0 14 0 0 0 0 0 0 0 0 0 0 0 0 0 1")
+				}
 			case 4:
 				emit("dec.DELTA " + hx(r.Bytes(1+r.Intn(2))))
 			case 5:
